@@ -17,6 +17,8 @@ import Goat.Chain
 import Goat.Stats
 import Goat.ClientStream
 import Goat.Drv.MuxReplay
+import Goat.Drv.SrvReplay
+import Goat.Drv.PbOps
 open Goat Goat.Drv
 
 def showOptBytes : Option Bytes → String
@@ -221,6 +223,40 @@ def parseMuxObs (s : String) : Option MuxReplay.Obs :=
   | ["fail"] => some .fail
   | _ => none
 
+def parseSrvObs (s : String) : Option SrvReplay.Obs :=
+  let n := fun (x : String) => x.toNat?
+  match s.splitOn ":" with
+  | ["in", id, fl] => (n id).map (fun id =>
+      let has := fun (c : Char) => fl.toList.contains c
+      .in_ { id := id, unary := has 'u', reset := has 'r', body := has 'b', trailer := has 't', badMeta := has 'm' })
+  | ["stop"] => some .stop
+  | ["clientcancel"] => some .clientCancel
+  | ["dispatch", id] => (n id).map .dispatch
+  | ["wran", id] => (n id).map .workerRan
+  | ["whand", id] => (n id).map .workerHandoff
+  | ["waban", id] => (n id).map .workerAbandon
+  | ["wexit"] => some .workerExit
+  | ["wwrite", id, r] => (n id).map (fun id => .writerWrite id (r == "ok"))
+  | ["wrexit"] => some .writerExit
+  | ["scancel", id] => (n id).map .streamCancel
+  | ["fenter", id] => (n id).map .fwdEnter
+  | ["fsent", id] => (n id).map .fwdSent
+  | ["fdropped", id] => (n id).map .fwdDropped
+  | ["fabort", id, w] => (n id).map (fun id => .fwdAbort id (w == "client"))
+  | ["reset", id] => (n id).map .reset
+  | ["rhand", id] => (n id).map .resetHandoff
+  | ["reg", id] => (n id).map .register
+  | ["hrecv", id] => (n id).map .hRecv
+  | ["hsent", id] => (n id).map .hSent
+  | ["hret", id] => (n id).map .hReturned
+  | ["trailer", id, r] => (n id).map (fun id => .trailer id (r == "ok"))
+  | ["unreg", id] => (n id).map .unregister
+  | ["sexit"] => some .serveExit
+  | ["wpick"] => some .waitPick
+  | ["wtaken"] => some .waitTaken
+  | ["wdone"] => some .waitDone
+  | _ => none
+
 def evalOp (op input : String) : Option String :=
   match op with
   | "b64enc" => (parseHex input).map (fun b => hexOf (Base64.encode b))
@@ -250,6 +286,7 @@ def evalOp (op input : String) : Option String :=
         some (if lo ≤ (d : Int) ∧ (d : Int) ≤ hi then "in" else s!"out({d})")
       | some d, _ => some s!"out({d})"
     | _ => none
+  | "srvtrace" => (parseList parseSrvObs ";" input).map SrvReplay.verdict
   | "muxtrace" => match input.splitOn "|" with
     | [n, evs] => (parseList parseMuxObs ";" evs).map (fun l => MuxReplay.verdict l n.toNat?)
     | _ => none
@@ -310,7 +347,7 @@ def evalOp (op input : String) : Option String :=
       if mode == "unary" then some (showOutcome (StatusM.clientUnary true st (if hb == "1" then some [] else none)))
       else some (showOutcome (StatusM.clientStreamTerminal true (rst == "1") st))
     | _ => none
-  | _ => none
+  | _ => evalPb op input
 
 structure Tally where
   lines : Nat := 0
